@@ -129,7 +129,7 @@ const c09MaxHangs = 10
 
 func checkC09(c *ctx) {
 	res := c.res
-	res.Rule = "writer cases: the C12 script generator (bgzf scripts with Write/Flush/Wait/Close incl. calls after Close, and bam.NewWriter+records+Close) x wc 0..5 x GOMAXPROCS {1,2,16} x random delays, with a persistent fault from underlying Write #k on (k uniform over the run plus first/last/EOF-marker bias; error with or without partial data). reader cases: a valid BGZF file (1..6 members incl. empty and full-size members) read by a random history of Read/ReadByte/Seek/Close with rd in {1,2,4}, no cache, over a source that fails from Read #k, byte offset p (member start, header end, last byte ... biased) or Seek #k on (error, error after partial data, or premature io.EOF = truncation). Non-trivial = the fault was actually reached by the run; distinct by the whole input. Oracle on the implementation: every call returns (watchdog + goroutine dump: dead-lock vs slowness), no goroutine with bgzf frames after Close, Close != nil after a failed write and every call != nil once the error was reported, no underlying write after a failed one, Flush+Wait == nil still implies durability; reader: bytes returned equal the flat data at their position, no clean end before the true end. Correspondence: writer traces must be paths of the Lean LTS of the repaired protocol (c12.trace with the fault oracle); reader outcomes vs the sequential fault model (c09.read)."
+	res.Rule = "writer cases: the C12 script generator (bgzf scripts with Write/Flush/Wait/Close incl. calls after Close, and bam.NewWriter+records+Close) x wc 0..5 x GOMAXPROCS {1,2,16} x random delays, with a persistent fault from underlying Write #k on (k uniform over the run plus first/last/EOF-marker bias; error with or without partial data). reader cases: a valid BGZF file (1..6 members incl. empty and full-size members) read by a random history of Read/ReadByte/Seek/Close with rd in {1,2,4}, no cache, over a source that fails from Read #k, byte offset p (member start, header end at +18, last byte ... biased) or Seek #k on: kind err = every later Read fails (error, or error after partial data); kind eof = the file is truncated there (reads below the cut succeed, also after a Seek; reads at or beyond it report io.EOF). Non-trivial = the fault was actually reached by the run; distinct by the whole input. Oracle on the implementation: every call returns (watchdog + goroutine dump: dead-lock vs slowness), no goroutine with bgzf frames after Close, Close != nil after a failed write and every call != nil once the error was reported, no underlying write after a failed one, Flush+Wait == nil still implies durability; reader: bytes returned equal the flat data at their position, no clean end before the true end. Correspondence: writer traces must be paths of the Lean LTS of the repaired protocol (c12.trace with the fault oracle); reader outcomes vs the sequential fault model (c09.read)."
 	if runInChild(c, "C09") {
 		return
 	}
